@@ -48,7 +48,11 @@ def handle (op : String) (j : Json) : Option (R Json) :=
       let f ← cfArrOfJson j
       let al ← getFloats j "alpha"
       let un ← getBool j "unitary"
-      let F := freeze (dft2 f al[0]! al[1]! f.s0 f.s1 0 0 0 0 un)
+      -- optional "period": [K, L] — forward onto K × L samples (oversampled period), inverse back onto the input shape
+      let per ← match optVal j "period" with
+        | none => pure #[f.s0, f.s1]
+        | some p => do (← p.getArr?).mapM (·.getInt?)
+      let F := freeze (dft2 f al[0]! al[1]! per[0]! per[1]! 0 0 0 0 un)
       pure (okJ [("F", cfArrToJson F), ("g", cfArrToJson (idft2 F al[0]! al[1]! f.s0 f.s1 0 0 un))])
   | _ => none
 
